@@ -13,3 +13,7 @@ pub mod runner;
 #[cfg(feature = "async")]
 pub mod aexec;
 pub mod sched;
+pub mod alloc_watch;
+
+#[global_allocator]
+static GLOBAL: alloc_watch::Watch = alloc_watch::Watch;
